@@ -39,12 +39,16 @@ def _run_one(args):
     mod = importlib.import_module(modname)
     job = [j for j in mod.jobs() if j.name == jobname][0]
     impl, ref = programs(repo)
+    if job.opts.get("impl_root"):
+        from .interp import Program
+        impl = Program(os.path.join(VERIF, job.opts["impl_root"]), "canary", fallback=os.path.join(repo or REPO, "asyncstdlib"))
     t0 = time.time()
     try:
         v = Verifier(job, impl, ref, mode=mode, unroll=unroll)
         res = v.run()
         res.mode = mode
         out = summarise(res)
+        out["args"] = argspec(job)
     except Exception as e:      # engine crash: reported as checker error, never as a violation
         import traceback
         out = {"job": jobname, "props": list(job.props), "kind": job.kind, "impl": list(job.impl), "ref": None,
@@ -52,6 +56,34 @@ def _run_one(args):
                "rounds": 0, "repolls": 0, "undecided": None, "invariants": {}, "samples": [], "mode": mode,
                "crash": traceback.format_exc()[-3000:]}
     return out
+
+
+def argspec(job):
+    """parameter shape of a job in serialisable form (for the native replay harness)"""
+    from .interp import Ctx
+    from .driver import Env
+    from .values import Source, UserFn, Opaque, SInt
+    try:
+        ctx = Ctx([])
+        a = job.mk(ctx, Env(ctx))
+    except Exception:
+        return None
+    def conv(v):
+        if isinstance(v, Source):
+            return {"kind": "source", "name": v.name, "has_aclose": v.has_aclose, "src_kind": v.kind}
+        if isinstance(v, UserFn):
+            return {"kind": "fn", "name": v.name}
+        if isinstance(v, Opaque):
+            return {"kind": "val", "name": str(v.t)}
+        if isinstance(v, SInt):
+            return {"kind": "int", "name": str(v.t)}
+        if v is None:
+            return {"kind": "none"}
+        if isinstance(v, (bool, int, str)):
+            return {"kind": "const", "value": v}
+        return {"kind": "unsupported", "repr": repr(v)}
+    return {"iargs": [conv(x) for x in a["iargs"]], "rargs": [conv(x) for x in a["rargs"]],
+            "ikw": {k: conv(x) for k, x in a.get("ikw", {}).items()}, "rkw": {k: conv(x) for k, x in a.get("rkw", {}).items()}}
 
 
 def run_jobs(specs, mode="prove", unroll=3, procs=None, repo=None):
@@ -90,6 +122,8 @@ def attribute(job, ob):
     if kind == "event-match":
         m = re.search(r"/event-match/(\w+)@[^~]*~(\w+)@", name)
         ik, rk = (m.group(1), m.group(2)) if m else ("?", "?")
+        if ik == rk == "Result" or "NextOp" in (ik, rk):
+            return props - {"C04", "C18"} or props
         if ik == rk and ik == "Yielded":
             return ({"C01", "C19", "C16"} & props) or props
         if ik in ("Done", "Finished") or rk in ("Done", "Finished"):
